@@ -230,6 +230,8 @@ class C10World(World):
             o = dict(op); o.pop("reject"); out.append(o)
         if op.get("rows", 1) > 1:
             out.append(dict(op, rows=1))
+        if op.get("hw"):
+            o = dict(op); o.pop("hw"); out.append(o)
         if op.get("grad") in ("no_grad", "inference"):
             out.append(dict(op, grad="grad"))
         if op.get("scale", 1.0) != 1.0:
@@ -376,12 +378,14 @@ class C10World(World):
             op.update(x=data.seed30(), rows=data.pick([1, 2, 3, 4]),
                       grad=sched.weighted(["no_grad", "grad", "inference"], [3, 2, 1]),
                       scale=data.pick([1.0, 1.0, 1.0, 0.01, 10.0]))
+            self._vary_hw(op, data)
             if faulty and fault.chance(0.15):
                 op["interrupt"] = fault.randint(1, 30 * (8 if self.cfg.get("opcode") else 1))
             elif faulty and fault.chance(0.08):
                 op["reject"] = fault.pick(["features", "dtype"])
         elif kind == "fwdbwd":
             op.update(x=data.seed30(), rows=data.pick([1, 2, 3]), dir=sched.pick(["forward", "inverse"]))
+            self._vary_hw(op, data)
         elif kind in ("train", "eval", "double", "float"):
             if kind in ("train", "eval") and self.cfg["nest"] != "bare" and sched.chance(0.3):
                 op["target"] = "leaf"
@@ -410,6 +414,12 @@ class C10World(World):
             op["seed"] = data.seed30()
         return op
 
+    def _vary_hw(self, op, data):
+        """1x1 convolution: the spatial size is the caller's per call, not part of the configuration, so one cache
+        generation may serve images of different sizes (a cached quantity that silently depends on h*w is stale)."""
+        if self.cfg["cls"] == "Conv" and data.chance(0.4):
+            op["hw"] = [data.pick([1, 2, 3]), data.pick([1, 2, 3])]
+
     # ------------------------------------------------------------ inputs
     def make_x(self, op, dtype=None):
         D = self.cfg["D"]
@@ -422,7 +432,8 @@ class C10World(World):
             torch = _T()
             dt = torch.float64 if dt == torch.float32 else torch.float32
         if self.cfg["cls"] == "Conv":
-            shape = (rows, D, self.cfg["hw"][0], self.cfg["hw"][1])
+            hw = op.get("hw") or self.cfg["hw"]
+            shape = (rows, D, hw[0], hw[1])
         else:
             shape = (rows, D)
         return core.seeded(op["x"], shape, dtype=dt, scale=op.get("scale", 1.0))
@@ -452,7 +463,7 @@ class C10World(World):
             ob = C_TOL * eps * n * (nm["fw"] * rn + nm["bias2"] + 1e-30)
         else:
             ob = C_TOL * eps * n * nm["kappa"] * nm["iv"] * (rn + nm["bias2"] + 1e-30)
-        hw = self.cfg["hw"][0] * self.cfg["hw"][1] if self.cfg["cls"] == "Conv" else 1
+        hw = int(x.shape[2] * x.shape[3]) if self.cfg["cls"] == "Conv" and x.dim() == 4 else 1
         lb = C_TOL * eps * n * nm["kdet"] * (1.0 + nm["sumlog"]) * hw
         return ob, lb, nm["ok"]
 
